@@ -14,7 +14,11 @@ UNKNOWN_KEYS = ['x', 'my-option', 'X_1', 'zzz', 'Another-Key', 'q9', 'a_b-c',
                 # names that mean something INSIDE the library (parameter and attribute names): still just unknown options
                 'self', 'keep_bytes', 'preserve_trailing_newline', 'fp', 'options', 'section', 'content', 'newline', 'cls',
                 'kwargs', 'args', 'data', 'text', 'stream', 'linenum', 'level', 'type_', 'section_id', 'diff', 'metadata',
-                'chunk_size', 'valid_sections', 'encodings']
+                'chunk_size', 'valid_sections', 'encodings',
+                # names that CONTAIN the name of an interpreted option (word-boundary and prefix/suffix confusions)
+                'spec-version', 'min-version', 'x-version', 'xversion', 'version2', 'x-encoding', 'encoding-x', 'pre-length',
+                'length2', 'no-indent', 'indent-by', 'my-line_endings', 'line_endings2', 'x-format', 'format-x', 'a-type',
+                'type-b', 'x-mimetype']
 UNKNOWN_VALS = ['value', '1', '-5', '007', 'a/b', '/x', '1.0', 'text/x-diff', '_', '-', '.', 'A.b_c-d/e', '12abc', '1_0']
 # digit strings around CPython's int/str conversion limit (rare: the model's decimal printing is quadratic)
 UNKNOWN_LONG_VALS = ['7' * 4300, '7' * 4301, '-' + '3' * 4400]
